@@ -73,7 +73,7 @@ def perturbations(d, rng, quick):
         out.append(("supply", "meat_monthly-alone", e, "ge"))
     # waste down
     ws = [w for w in WASTES if d[w] >= 5 and d["add_" + w[2:]]]
-    for w in (rng.sample(ws, min(len(ws), 2)) if quick else ws):
+    for w in ws:
         e = cp()
         e[w] = d[w] - 5.0
         out.append(("waste", w, e, "ge"))
@@ -112,7 +112,7 @@ def run(ctx):
     okb, bad, _ = ctx.build(["Model/LPCheck.vo"])
     rng = ctx.rng
     nreal = 3 if ctx.quick else 30
-    nsyn = 25 if ctx.quick else 400
+    nsyn = 30 if ctx.quick else 400
     must = [pools.option(scenario="all_resilient_foods", shutoff="continued")]
     real = pools.sample_runs(rng, nreal, must=must)
     res = ctx.run_impl("lp_impl", {"synthetic": [], "real": real, "rows_for_real": True, "procs": 8})
@@ -128,11 +128,13 @@ def run(ctx):
             bases.append(({"iso3": run_["iso3"], "solve": k, "scenario": run_["option"].get("scenario")}, d, rec))
     for k in range(nsyn):
         if k % 3 == 2:
-            d = lpgen.gen_targeted(rng, k)
+            d = lpgen.gen_targeted(rng, k // 3)
         else:
             d = lpgen.gen_spec(rng, ty="to_humans" if rng.random() < 0.85 else "to_animals", solvable=True, nmax=16)
         bases.append(({"synthetic": True}, d, None))
     items, meta = [], []
+    # tie on inputs with arbitrary (also inconsistent / unsolvable) values: build only
+    tie_specs = [{"spec": lpgen.gen_spec(rng), "solve": False} for _ in range(12 if ctx.quick else 150)]
     # corpus: recorded witnesses run first
     import os
     cdir = "/verif/corpus/C12"
@@ -151,7 +153,8 @@ def run(ctx):
             items.append({"spec": e, "solve": True})
             meta.append((where, kind, label, exp, e))
     ctx.log(f"{len(bases)} bases, {len(items)} solves")
-    out = ctx.run_impl("lp_impl", {"synthetic": items, "real": [], "procs": 14})["synthetic"]
+    out_all = ctx.run_impl("lp_impl", {"synthetic": items + tie_specs, "real": [], "procs": 14})["synthetic"]
+    out, tie_out = out_all[:len(items)], out_all[len(items):]
     dist = {"bases": len(bases), "perturbed": 0, "by_kind": {}, "perturbed_infeasible": 0, "base_infeasible": 0,
             "reconstructed_base_mismatch": 0}
     base_opt = None
@@ -205,7 +208,9 @@ def run(ctx):
             sp, op_ = lpspec.solve_rows(r["rows"])
             if sb == 0 and sp == 0:
                 tg = ob * (float(exp0[3:]) if exp0.startswith("eq*") else 1.0)
-                tl = REL * (1 + abs(tg))
+                # seaweed ledgers (growth of several hundred percent a month) amplify the float rounding of the rows
+                # themselves: a re-scaled instance re-solved exactly still differs by a few 1e-6
+                tl = (1e-4 if base_spec.get("add_sw") else REL) * (1 + abs(tg))
                 ok2 = (exp == "ge" and op_ >= tg - tl) or (exp == "le" and op_ <= tg + tl) or (exp == "eq" and abs(op_ - tg) <= tl)
                 if ok2:
                     dist.setdefault("solver_precision_cases", []).append(
@@ -218,6 +223,11 @@ def run(ctx):
                           {"kind": "counterexample", "base": base_spec, "perturbed": spec, "where": where, "label": label,
                            "base_optimum": base_opt, "perturbed_optimum": p, "expected": exp0})
         ctx.sample({"where": where, "perturbation": [kind, label], "base": base_opt, "perturbed": p}, limit=6)
+    for it, r in zip(tie_specs, tie_out):
+        if okb and "rows" in r:
+            sp = it["spec"]
+            file_specs.append((lpcase.instance_defs("x", {"lp_in": r["lp_in"] | {"ty": sp["ty"]}, "rows": r["rows"]}),
+                               [f"compare_lp {fq(TOL)} {fq(lpcase.scale_of(r['lp_in']))} x_in {lpcase.coq_ty(sp['ty'])} x_rows"]))
     ctx.notes["input_distribution"] = dist
     ctx.traces = len([b for b in bases if b[2] is not None])
     if okb and file_specs:
